@@ -16,5 +16,6 @@ func moreGens() []struct {
 		{"DeclHash.v", genDeclHash},   // C13, C15
 		{"C08Facts.v", genC08Facts},   // C08
 		{"NavShape.v", genNavShape},   // C11
+		{"CsvCfg.v", genCsvCfg},       // C06
 	}
 }
